@@ -33,8 +33,12 @@ def parse_lines(O, lines, indents):
         return dip_parse('\n'.join(out))
     item_of_line = {}
     n = 0
+    started = False               # add_string() drops leading empty lines before it numbers them
     for idx, l in enumerate(lines):
-        for _ in l.split('\n'):
+        for part in l.split('\n'):
+            if not started and part.strip() == '':
+                continue
+            started = True
             n += 1
             item_of_line[n] = idx
     with DIP() as p:
